@@ -549,6 +549,30 @@ def rule_items(ctx):
     ctx.require(n >= 2, 'C09.items', f'only {n} per-insertion item classes found')
 
 
+def rule_entries_fixed(ctx):
+    ctx.rule('C09.key', 'a queue entry keeps the priority and the insertion counter it was created with: the only store into an existing entry '
+                        'is the removal mark; a new priority is a new entry made by add() with the next counter (an entry re-keyed in place '
+                        'keeps an old counter and overtakes entries already waiting at its new time)')
+    ci = ctx.repo.cls('sc3.base._taskq:TaskQueue')
+    n = 0
+    bad = []
+    for name, f in sorted(ci.methods.items()):
+        for x in walk_local(f.node):
+            if not isinstance(x, (ast.Assign, ast.AugAssign)):
+                continue
+            for t in (x.targets if isinstance(x, ast.Assign) else [x.target]):
+                if isinstance(t, ast.Subscript) and not U.is_self_attr(t.value):
+                    n += 1
+                    mark = isinstance(x, ast.Assign) and '_REMOVED' in norm(x.value) and norm(t.slice) in ('-1', '2')
+                    if not mark:
+                        bad.append(f'{name}: {norm(x)[:50]}')
+    ctx.ob('C09.key', f'{ci.fq}:entries-fixed', n >= 1 and not bad,
+           f'stores into queue entries other than the removal mark: {bad}', ci.node, ci.module)
+    hp = [f'{name}: {norm(c.func)}' for name, f in sorted(ci.methods.items()) for c in U.calls(f.node) if norm(c.func) in ('heapq.heapify', 'heapify')]
+    ctx.ob('C09.key', f'{ci.fq}:no-reheapify', not hp,
+           f'{hp}: the heap is only ever pushed to and popped from; re-heapifying is needed only after keys were rewritten in place', ci.node, ci.module)
+
+
 def run(ctx):
     from ..report import SubCtx
     from . import c10
@@ -557,6 +581,7 @@ def run(ctx):
     rule_items(ctx)
     rule_inv(ctx)
     rule_key(ctx)
+    rule_entries_fixed(ctx)
     rule_own(ctx)
     rule_use(ctx)
     ctx.assume('priorities are mutually comparable, so heapq.heappush does not raise between the index update and the push')
@@ -564,6 +589,9 @@ def run(ctx):
 
 
 MUTANTS = [
+    dict(rule='C09.key', name='pending entries re-keyed in place keep their old insertion counter (seed C09-l)', file='sc3/base/_taskq.py',
+         old="    def clear(self):\n        \'\'\'Reset the queue to initial state (remove all tasks).\'\'\'\n",
+         new="    def rekey(self, func):\n        for entry in self._queue:\n            if entry[-1] is not type(self)._REMOVED:\n                entry[0] = func(entry[0], entry[-1])\n        heapq.heapify(self._queue)\n\n    def clear(self):\n        \'\'\'Reset the queue to initial state (remove all tasks).\'\'\'\n"),
     dict(rule='C09.use', name='shutdown runs the exit actions from an iteration snapshot (seed C09-f)', file='sc3/base/main.py',
          old="        while not cls._atexitq.empty():\n            with cls._main_lock:\n                cls._atexitq.pop()[1]()\n",
          new="        for _, action in cls._atexitq:\n            with cls._main_lock:\n                action()\n        cls._atexitq.clear()\n"),
